@@ -49,7 +49,7 @@ def by' : Nat := 463168356949264781694283940034751631413079938662562256157830336
 structure EdPt where
   x : Nat
   y : Nat
-  deriving DecidableEq, Repr, BEq
+  deriving DecidableEq, Repr, BEq, Inhabited
 
 /-- The base point. -/
 def B : EdPt := ⟨bx, by'⟩
@@ -58,7 +58,7 @@ def B : EdPt := ⟨bx, by'⟩
 structure EdPub where
   bytes : Bytes
   pt : EdPt
-  deriving DecidableEq, Repr, BEq
+  deriving DecidableEq, Repr, BEq, Inhabited
 
 /-- What `VerifyingKey::to_bytes` returns: the bytes the key was parsed from. -/
 def pubBytes (A : EdPub) : Bytes := A.bytes
